@@ -1242,9 +1242,9 @@ impl<const MIN_ALIGN: usize> Bump<MIN_ALIGN> {
                         // only allocation in this chunk.
                         //
                         // Because this is the only allocation in this chunk,
-                        // we can reset the chunk's bump finger to the start of
-                        // the chunk.
-                        current_ptr.set(current_footer_p.as_ref().data);
+                        // we can reset the chunk's bump finger to its initial
+                        // position: the chunk's footer (we bump downwards).
+                        current_ptr.set(current_footer_p.cast());
                     }
                 }
                 //SAFETY:
@@ -1350,9 +1350,9 @@ impl<const MIN_ALIGN: usize> Bump<MIN_ALIGN> {
                         // only allocation in this chunk.
                         //
                         // Because this is the only allocation in this chunk,
-                        // we can reset the chunk's bump finger to the start of
-                        // the chunk.
-                        current_ptr.set(current_footer_p.as_ref().data);
+                        // we can reset the chunk's bump finger to its initial
+                        // position: the chunk's footer (we bump downwards).
+                        current_ptr.set(current_footer_p.cast());
                     }
                 }
                 //SAFETY:
